@@ -17,9 +17,6 @@ Definition tf_eqb (a : tf4) (b : Z * Z * Z * Z) : bool :=
 Definition posting_eqb (p : posting) (q : Z * Z * Z * Z * Z) : bool :=
   let '(d, x, y, z, w) := q in Z.eqb (Z.of_nat (p_doc p)) d && tf_eqb (p_tf p) (x, y, z, w).
 
-Fixpoint list_eqb2 {A B} (eqb : A -> B -> bool) (a : list A) (b : list B) : bool :=
-  match a, b with [], [] => true | x :: a', y :: b' => eqb x y && list_eqb2 eqb a' b' | _, _ => false end.
-
 Fixpoint zip3 {A B C} (a : list A) (b : list B) (c : list C) : list (A * B * C) :=
   match a, b, c with x :: a', y :: b', z :: c' => (x, y, z) :: zip3 a' b' c' | _, _, _ => [] end.
 
